@@ -63,6 +63,9 @@ func NewChoiceProvider(w *World) *ChoiceProvider {
 func (c *ChoiceProvider) begin(verb, name string) (*Call, error) {
 	call := &Call{Verb: verb, Kind: "Instance", Name: name}
 	var err error
+	if c.w.Client.Sched != nil && c.w.Client.Quiet == 0 {
+		c.w.Client.Sched(verb + " Instance/" + name)
+	}
 	if c.Hook != nil && c.w.Client.Quiet == 0 {
 		err = c.Hook(call)
 	}
